@@ -1204,6 +1204,9 @@ func TestVerifC08(t *testing.T) {
 		for _, ty := range types {
 			ks = append(ks, mkKey(t, ty))
 		}
+		// round 2: /p2p address forms incl. circuit addresses; hand-sealed relay vouchers
+		c08P2PAddrs(t, out, r, ks[round%4], ks[(round+1)%4], ks[(round+3)%4])
+		c08Vouchers(t, out, r, ks[round%4], ks[(round+1)%4], ks[(round+2)%4], ks[(round+3)%4])
 		for i, k := range ks {
 			isRSA := k.kt == 0
 			every := 1
@@ -1221,6 +1224,14 @@ func TestVerifC08(t *testing.T) {
 				others = others[:2]
 			}
 			c08Sigs(t, out, r, k, others, 2, every)
+			// round 2: digests as messages, the inlining switch, seal-then-mutate
+			ndig := 12
+			if isRSA {
+				ndig = 10
+			}
+			c08SigDigests(t, out, r, k, ndig)
+			c08Inlining(t, out, k)
+			c08SealThenMutate(t, out, r, k, ks[(i+1)%4])
 			if round == 0 || thorough {
 				c08IDForms(out, r, k)
 				ed := func(m []byte, what string) { c08PubkeyEdit(out, m, what) }
